@@ -177,6 +177,14 @@ func observe() worldState {
 	return worldState{verifapi.UeCount(), env.FM.AllOps(), len(env.Notifications())}
 }
 
+// escapeAt percent-encodes the character at index i of the path (a letter or digit of a fixed segment).
+func escapeAt(path string, i int) string {
+	if i <= 0 || i >= len(path) || path[i] == '/' || path[i] == '%' {
+		return path
+	}
+	return path[:i] + fmt.Sprintf("%%%02X", path[i]) + path[i+1:]
+}
+
 func judgeRoute(c RouteCase) *h.Verdict {
 	v := &h.Verdict{NonTrivial: true}
 	cfg := stackenv.BaseConfig(env.FM.URL(), env.RfPort, env.AbmfPort, env.PemFile, env.KeyFile)
@@ -219,10 +227,28 @@ func judgeRoute(c RouteCase) *h.Verdict {
 		seenSvc[svc] = true
 		for k := 0; k < 3; k++ {
 			path := substitute(rt.Path, c.Params, k)
-			for _, tc := range tokenClasses {
+			for ti, tc := range tokenClasses {
 				before := observe()
-				req := httptest.NewRequest(rt.Method, path, bytes.NewReader(validBody(supi)))
+				// the same route spelled differently on the wire (a percent-encoded letter in the service or version
+				// segment: routing works on the decoded path), and asked for with different Accept headers
+				spelled := path
+				switch (k + ti) % 3 {
+				case 1:
+					spelled = escapeAt(path, 1)
+				case 2:
+					if i := strings.Index(path[1:], "/"); i > 0 {
+						spelled = escapeAt(path, i+2)
+					}
+				}
+				if spelled != path {
+					v.Label("path-percent-encoded")
+				}
+				req := httptest.NewRequest(rt.Method, spelled, bytes.NewReader(validBody(supi)))
 				req.Header.Set("Content-Type", "application/json")
+				if acc := []string{"", "text/plain", "application/xml;q=0.9", "application/problem+json", "*/*", "application/json"}[(k*7+ti)%6]; acc != "" {
+					req.Header.Set("Accept", acc)
+					v.Label("accept-header")
+				}
 				if hv, present := tc.header(svc, c.Garbage); present {
 					req.Header.Set("Authorization", hv)
 				}
